@@ -412,7 +412,8 @@ err_t beltFMTEncr(u16 dest[], u32 mod, const u16 src[], size_t count,
 {
 	void* state;
 	// проверить входные данные
-	if (count < 2 ||
+	if (mod < 2 || mod > 65536 ||
+		count < 2 ||
 		len != 16 && len != 24 && len != 32 ||
 		!memIsValid(src, 2 * count) ||
 		!memIsNullOrValid(iv, 16) ||
@@ -440,7 +441,8 @@ err_t beltFMTDecr(u16 dest[], u32 mod, const u16 src[], size_t count,
 {
 	void* state;
 	// проверить входные данные
-	if (count < 2 ||
+	if (mod < 2 || mod > 65536 ||
+		count < 2 ||
 		len != 16 && len != 24 && len != 32 ||
 		!memIsValid(src, 2 * count) ||
 		!memIsNullOrValid(iv, 16) ||
